@@ -870,7 +870,8 @@ theorem phdr_get_at {c : Cls} {enc : Enc} {img : Bytes} {base : Nat} {g : Seg}
     `e_shoff`): the same name offset, type, flags, size, link, info, alignment, entry size; the same
     address if one had been set; and, for a file-occupying non-empty resident section, its data at
     the decoded `sh_offset`.  For every segment (record `index` of the table at `e_phoff`): the same
-    type, flags, virtual and physical address, and an alignment of at least the requested one.
+    type, flags, virtual and physical address, an alignment of at least the requested one and (ELF64) a
+    memory size of at least the given one.
     Hypotheses: the save succeeded into a good stream; no address translation; `LayoutOk` (C04's
     disjointness, as hypothesis); the object's section fields fit the class (`FieldsFit`, guaranteed by
     the truncating setters) and the saved segments' do (`SegFit`; trivial in ELF64). -/
@@ -897,7 +898,8 @@ theorem save_decode_fields {o : Obj} {os : OStream} {r : SaveRes} (hs : save o o
       let l := Spec.phdrL o.cls
       Spec.get l o.enc img base "p_type" = g.stype.toNat ∧ Spec.get l o.enc img base "p_flags" = g.flags.toNat ∧
       Spec.get l o.enc img base "p_vaddr" = g.vaddr.toNat ∧ Spec.get l o.enc img base "p_paddr" = g.paddr.toNat ∧
-      g.align.toNat ≤ Spec.get l o.enc img base "p_align") := by
+      g.align.toNat ≤ Spec.get l o.enc img base "p_align" ∧
+      (o.cls = .c64 → g.memsz.toNat ≤ Spec.get l o.enc img base "p_memsz")) := by
   obtain ⟨⟨l0, l1, f0, f1, f2⟩, fs, ec, ee, _⟩ := save_frames hs hok hidx
   rw [ec, ee] at hl
   constructor
@@ -967,12 +969,13 @@ theorem save_decode_fields {o : Obj} {os : OStream} {r : SaveRes} (hs : save o o
     rw [eidx] at hrec
     obtain ⟨g0, g1, g2, g3, g4, g5, g6, g7⟩ := phdr_get_at hrec (hsegfit _ hmem)
     simp only
-    refine ⟨g0.trans ?_, g1.trans ?_, g3.trans ?_, g4.trans ?_, ?_⟩
+    refine ⟨g0.trans ?_, g1.trans ?_, g3.trans ?_, g4.trans ?_, ?_, fun hc => ?_⟩
     · rw [er]
     · rw [er]
     · rw [er]
     · rw [er]
     · rw [g7]; exact sg.frame.alignGrows
+    · rw [g6]; exact sg.frame.memGrows hc
 
 /-- every ELF header field of the saved file reads as it reads in the saved object's header -/
 theorem save_image_header {o : Obj} {os : OStream} {r : SaveRes} (hs : save o os = .ok r) (hok : r.ok = true)
